@@ -222,3 +222,13 @@ func FmtErrorfWrap(msg string, err interface{}) error {
 	e, _ := err.(error)
 	return &wrapError{msg: msg, err: e}
 }
+
+func BytealgCount(b []byte, c byte) int {
+	n := 0
+	for _, x := range b {
+		if x == c {
+			n++
+		}
+	}
+	return n
+}
